@@ -100,3 +100,11 @@ package gcsca
 //@   assigns ca.manifest
 //@   modifies pbsrc, pbok
 //@   ensures[C03] err == nil ==> ca.manifest != nil && exists(i, 0 <= i && i < len(ca.manifest.Entries) && ca.manifest.Entries[i] != nil && ca.manifest.Entries[i].KeyVersionName == keyVersionName && val(result0) == diskData[ca.manifest.Entries[i].ObjectPath])
+
+// C11 (the store is consistent at every write prefix): preparing the authority's resources writes no object - in
+// particular not the manifest, whose in-memory copy may be ahead of the store after a failed Finalize.
+//@ func (*CertificateAuthority).PrepareResources
+//@   requires ca != nil && ca.Storage != nil
+//@   assigns nothing
+//@   modifies diskHas
+//@   ensures[C11] manifestWrites == old(manifestWrites) && objWrites == old(objWrites)
